@@ -139,9 +139,6 @@ pub fn world(ch: &mut Chooser) -> World {
         w.violated.insert("P0022");
     }
     let fbtype = ["Callee", "NoFb"][ch.pick("fbtype", &["Callee", "unknown-fb-type"], 1)];
-    if fbtype == "NoFb" {
-        w.violated.insert("P0022");
-    }
     let kdecl = ch.pick(
         "const",
         &["INT:=5", "none", "INT-no-init", "enum-no-init", "STRING-no-init", "fb-instance", "enum:=Low", "STRING:='s'", "BOOL-no-init", "two-names-no-init"],
@@ -234,6 +231,10 @@ pub fn world(ch: &mut Chooser) -> World {
         w.notes.push("invocation-of-unknown-fb-type".into());
     }
     let inst_decl = if nodecl { String::new() } else { format!("inst : {} ; ", fbtype) };
+    if fbtype == "NoFb" && !nodecl {
+        // the unknown type only occurs in the program when the instance is declared
+        w.violated.insert("P0022");
+    }
     let (hopen, hclose) = if host_kind == 0 { ("FUNCTION_BLOCK Host", "END_FUNCTION_BLOCK") } else { ("PROGRAM Host", "END_PROGRAM") };
     let host_words = format!(
         "{} VAR_INPUT a_in : INT ; END_VAR VAR_OUTPUT q_out : INT ; END_VAR VAR {}x : {} ; y : INT ; lv : {}{} ; arr : Arr ; str : STRING ; END_VAR {} {} {} {} {} q_out := y ; {}",
